@@ -24,3 +24,14 @@ import Anysystem.Proofs.R6Demo
 #print axioms Anysystem.R5MainDemo.demo_covered
 #print axioms Anysystem.sim_step_refines_run
 #print axioms Anysystem.R6Demo.drop_covered
+#print axioms Anysystem.TimedRel.toF
+#print axioms Anysystem.fate_covered_mid
+#print axioms Anysystem.fates_covered
+#print axioms Anysystem.sim_step_refines_fates
+#print axioms Anysystem.timedRelF_snapshot
+#print axioms Anysystem.sim_step_matched_fates
+#print axioms Anysystem.sim_run_covered_fates
+#print axioms Anysystem.freshSend_of_tip
+#print axioms Anysystem.R7Demo.fateH_fresh
+#print axioms Anysystem.R7Demo.fate_step
+#print axioms Anysystem.R7Demo.fates_covered_demo
